@@ -420,7 +420,7 @@ def mon_c02(tr: Trace) -> list[Violation]:
 def _budget(pol: dict | None) -> int | None:
     if pol is None:
         return 1
-    if pol["kind"] in ("attempts", "chain", "legacy"):
+    if pol["kind"] in ("attempts", "chain", "chain_exp", "legacy"):
         return max(pol["n"], 1)
     return None
 
@@ -486,11 +486,14 @@ def mon_c05(tr: Trace) -> list[Violation]:
             if len(execs) > expect or (len(execs) < expect and not run_over and tr.outcome[0] not in ("result", "error")):
                 out.append(Violation("C05/attempt_budget", f"{step} uid={uid}: executed {len(execs)} times, policy {sd.get('retry')} allows exactly {expect}", _replay(tr)))
         # reported attempts / elapsed in WorkflowFailedEvent
-        if all_failed and done and failed_pubs and failed_pubs[0][0].step_name == step and sum(1 for k2 in lin if k2[0] == step) == 1:
+        if all_failed and done and failed_pubs and failed_pubs[0][0].step_name == step:
             fe = failed_pubs[0][0]
-            # the lineage that failed the run is the one whose last failure is the latest
-            last_fail = max((ex[-1][2], k) for k, ex in lin.items() if k[0] == step and all((x[3] or "").startswith("raise:") for x in ex))
-            if last_fail[1] == (step, uid):
+            # the lineage that failed the run is the one whose last failure is the latest (it must be unique)
+            cands = sorted(((ex[-1][2], k) for k, ex in lin.items() if k[0] == step and all(x[2] is not None for x in ex)
+                            and all((x[3] or "").startswith("raise:") for x in ex)), key=lambda t: t[0])
+            last_fail = cands[-1]
+            unique = len(cands) == 1 or cands[-2][0] < cands[-1][0]
+            if last_fail[1] == (step, uid) and unique:
                 if fe.attempts != len(execs):
                     out.append(Violation("C05/reported_attempts", f"WorkflowFailedEvent.attempts={fe.attempts} but {step} was executed {len(execs)} times", _replay(tr)))
                 real = execs[-1][2] - execs[0][1]
@@ -498,13 +501,13 @@ def mon_c05(tr: Trace) -> list[Violation]:
                     out.append(Violation("C05/reported_elapsed", f"WorkflowFailedEvent.elapsed_seconds={fe.elapsed_seconds} but {real} virtual seconds elapsed between the first attempt and the last failure", _replay(tr)))
         # stop_after_delay: retried exactly while really-elapsed < d
         pol = sd.get("retry")
-        single = sum(1 for k2 in lin if k2[0] == step) == 1
-        if pol and pol["kind"] == "delay" and fa and fa[0][0] == "fail_always" and done and ops.count("gate") == 0 and single:
+        if pol and pol["kind"] == "delay" and fa and fa[0][0] == "fail_always" and done and ops.count("gate") == 0:
             d = pol["d"]
             for i, e in enumerate(execs):
                 elapsed = e[2] - execs[0][1]
                 is_last = i == len(execs) - 1
                 gave_up = any(isinstance(c.tick, T.TickStepResult) and c.tick.step_name == step and c.error is None and
+                              repr(getattr(c.tick.event, "uid", None)) == uid and
                               any(isinstance(r, R.StepWorkerFailed) for r in c.tick.result) and
                               not any(isinstance(x, C.CommandQueueEvent) and x.attempts for x in c.cmds)
                               for c in _runner_calls(tr))
@@ -521,7 +524,7 @@ def mon_c06(tr: Trace) -> list[Violation]:
     for (step, uid), execs in _lineages(tr).items():
         sd = sdefs.get(step)
         pol = (sd or {}).get("retry")
-        if sd is None or pol is None or pol["kind"] not in ("attempts", "chain", "legacy", "delay"):
+        if sd is None or pol is None or pol["kind"] not in ("attempts", "chain", "chain_exp", "legacy", "delay"):
             continue
         ops = [a[0] for a in sd["script"]]
         if any(o in ops for o in ("collect", "wait")):
@@ -534,6 +537,10 @@ def mon_c06(tr: Trace) -> list[Violation]:
                 ws = pol["waits"]
                 documented = ws[min(k - 1, len(ws) - 1)]
                 code_index = ws[min(k, len(ws) - 1)]
+            elif pol["kind"] == "chain_exp":
+                # documented (0-based index k-1): first, then min(2**(k-1), 64); the engine passes index k
+                documented = pol["first"] if k - 1 == 0 else min(2 ** (k - 1), 64)
+                code_index = min(2 ** k, 64)
             else:
                 documented = code_index = pol.get("wait", 0)
             gap = start - prev_fail
